@@ -161,7 +161,7 @@ func (engC15) Gen(r *Rng, s *Script, idx int, tier string) {
 		if tall && !huge {
 			f = []int{FmtText, FmtMD, FmtCSV, FmtJSON, FmtText}[i%5]
 		}
-		st := Step{Op: "render", A: f, B: []int{0, 1, 2, 3, 4, 5, 6, 8}[r.Intn(8)], C: []int{ViaPkg, ViaFresh, ViaFresh, ViaAuto, ViaReused, ViaAutoFn}[r.Intn(6)], D: r.Intn(16) | r.Pick([]int{4, 1, 1, 1, 1})<<4, E: r.Range(1, 99)}
+		st := Step{Op: "render", A: f, B: []int{0, 1, 2, 3, 4, 5, 6, 8, 9}[r.Intn(9)], C: []int{ViaPkg, ViaFresh, ViaFresh, ViaAuto, ViaReused, ViaAutoFn}[r.Intn(6)], D: r.Intn(16) | r.Pick([]int{4, 1, 1, 1, 1})<<4, E: r.Range(1, 99)}
 		if tall {
 			// one wrapper for all faults of the route: every texttable/markdown Wrap
 			// registers one more measuring callback on the table, which over
